@@ -19,7 +19,7 @@ RULE = ('cases = abstract PELs (PH, UH, 0..40 optional sections of all nine cons
         'section; distinct by bytes')
 
 
-FAIL_UD = {'x5a5a': ('raises', ''), 'x1111': ('echo',), 'x2222': ('raises', 'boom'), 'x3333': ('none',), 'x8888': ('import_raises', 'load failure'),
+FAIL_UD = {'x5a5a': ('raises', ''), 'x6b6b': ('release_raises', 'done with the view'), 'x6c6c': ('release_none',), 'x1111': ('echo',), 'x2222': ('raises', 'boom'), 'x3333': ('none',), 'x8888': ('import_raises', 'load failure'),
            'y2222': ('raises_import', 'No module named frobnicate'), 'y3333': ('none',)}
 
 
@@ -204,7 +204,7 @@ def run(tier, seed):
             p['ph']['creator'] = ord(rng.choice('xxxy'))
             for sec in p['sections']:
                 if sec['kind'] in ('ud', 'ed') and rng.random() < 0.8:
-                    sec['hdr']['comp'] = rng.choice([0x1111, 0x2222, 0x2222, 0x3333, 0x3333, 0x8888, 0x9999, 0x5A5A])
+                    sec['hdr']['comp'] = rng.choice([0x1111, 0x2222, 0x2222, 0x3333, 0x3333, 0x8888, 0x9999, 0x5A5A, 0x6B6B, 0x6C6C])
                     if sec['kind'] == 'ed':
                         sec['creator'] = ord('x')
             # a failing section is never the last one
